@@ -202,7 +202,9 @@ def _execute(case, col, model):
     except Exception as e:
         fails.append(Failure(exc_sig("decode-raise", e), f"xsdata rejects its own output: {type(e).__name__}: {e}\nencoded: {(text or repr(encoded))[:1500]}\nobject: {value!r}\nmodel:\n{model.src}", case))
         return fails
-    if not deep_eq(back, value):
+    # with ignore_default_attributes an attribute that equals its default under python equality (02:00:00Z == 02:00:00) is left
+    # out and decodes to the default: an equal object, which is what the property promises
+    if not deep_eq(back, value, own_eq=bool(cfg.get("ignore_default_attributes"))):
         from checks.c01 import classify
         a, b = (value[0], back[0]) if cfg["as_list"] and len(value) == len(back) == 1 else (value, back)
         key = classify(case, a, b) if not isinstance(a, list) else "list"
